@@ -75,14 +75,19 @@ void xv_env(void) {
   }
 }
 #endif
+/* the template parameter policy::capacity (default 128): the functions under contract do not use it today; a text that does (e.g. a fast path that trusts it
+   instead of asking the container) is verified for every value - the container chosen with policy::container may be smaller or larger than it */
+size_t xv_policy_capacity;
+#define capacity xv_policy_capacity
 #include "lowered.h"
+#undef capacity
 
 static void havoc_state(struct cwsd* d) {
   unsigned c = nondet_uint(); XV_ASSUME(c >= 1 && c <= 31);
   d->_items.cap = (size_t)1 << c; d->_items.grows = 0;
   d->_bottom = nondet_size(); d->_top = nondet_size();
   XV_ASSUME(d->_top <= d->_bottom && d->_bottom - d->_top <= d->_items.cap && d->_bottom < MAX_IDX);
-  g_j = nondet_size(); g_v = nondet_uptr(); mon_self = d;
+  g_j = nondet_size(); g_v = nondet_uptr(); mon_self = d; xv_policy_capacity = nondet_size();
   get_count = 0; mon_top_cas_count = 0; mon_bottom_store_count = 0; mon_top_store_count = 0; mon_first_bottom_store_done = 0; grow_pre_ok = 1;
 }
 
